@@ -31,6 +31,22 @@ CHECKS = {
              "C01_repr_total_partial: that re-construction succeeds (proved for parsebitfield=True; False by "
              "correspondence). Python's repr/eval text is exercised, not modelled.",
         note=MSG_NOTE, ref="DESIGN.md §6 C01"),
+    "C02": dict(
+        technique="Coq proof (per-field decoding contracts: integer field = LE/two's-complement of its slice, flag = bit slice, payload untouched by the walk) + extracted-model correspondence on every definition + independent spec decoder",
+        text="C02_int_field, C02_flag, C02_payload_unchanged (every definition, repeat count and budget). The "
+             "whole-definition statement (ordered attribute list = decoding of consecutive fields, suffixes, counts, "
+             "variants) is decided by the PARSE correspondence of the extracted model over every (mode, definition, "
+             "variant) x counts x fills x both bitfield views, plus an independent spec decoder run against the "
+             "implementation; the generic walk theorem is not proved yet (partial).",
+        note=MSG_NOTE, ref="DESIGN.md §6 C02"),
+    "C03": dict(
+        technique="Coq proof (integer field and bit flag round-trip contracts) + refutation witnesses evaluated on the model for the recorded findings + BUILD correspondence / rebuild search on every keyword-constructible definition",
+        text="C03_int_field_roundtrip (every width), C03_flag_roundtrip; C03_scaled_refuted and C03_smallscale_refuted "
+             "are the witnesses of the recorded findings (truncating int(val/scale); scales below the 12-decimal grain). "
+             "Outside the recorded findings the rebuild property is decided by correspondence + search (parse a conforming "
+             "payload, feed all / a subset of the values back, compare payload and values). The generic build->parse "
+             "walk theorem is not proved (partial).",
+        note=MSG_NOTE, ref="DESIGN.md §6 C03"),
     "C04": dict(
         technique="Coq proof (constructor postcondition + payload byte-ness by walk invariant; textbook Fletcher sums) + finite table obligation + correspondence over all routes",
         text="C04_wellformed: for all three constructor routes (hence the config helpers), any message returned "
@@ -63,6 +79,16 @@ CHECKS = {
              "delivered raws are in-order non-overlapping slices each starting with a preamble byte; with errors not "
              "raised iteration ends only with the stream exhausted; the loop never needs more than |s|+1 iterations.",
         note=READER_NOTE, ref="DESIGN.md §6 C07"),
+    "C08": dict(
+        technique="Coq proof (exception-set analysis of every primitive and of the definition walk by nested induction, closed by a finite table obligation; reader termination by a consumption measure) + correspondence on every definition x every payload length",
+        text="C08_parse_no_foreign: for EVERY byte string, msgmode, validate and bitfield setting, with the shipped "
+             "tables, parse returns a message or raises UBXParseError/UBXMessageError/UBXTypeError (EOther = the executable "
+             "model declines above its repeat budget); C08_construct_no_foreign: same for the constructor with any "
+             "keyword values; C08_no_zero_div (table obligation); C08_read_terminates, C08_read_no_raise, "
+             "C08_read_raise_family for every stream and configuration. Partial: the exception discipline of the two "
+             "third-party parsers is an assumption (exercised on every generated frame); str()'s text and wall-clock are "
+             "exercised, not modelled; inspection functions are total in the model by construction.",
+        note=MSG_NOTE + " " + READER_NOTE, ref="DESIGN.md §6 C08"),
     "C09": dict(
         technique="Coq proof (simulation between the cut and uncut runs, induction on fuel) + correspondence at every cut position",
         text="C09_prefix for every byte string and every cut position: the cut run's items are a prefix of the uncut "
@@ -100,6 +126,13 @@ CHECKS = {
              "ids and name<->id inverse except the recorded duplicate 0x10340014 (_partial); C14_unknown_key. Parsing of "
              "CFG-VALSET/VALGET key lists: by correspondence and search (no theorem yet).",
         note=MSG_NOTE, ref="DESIGN.md §6 C14"),
+    "C15": dict(
+        technique="Coq proof (constructor raises only UBX errors for ANY keyword values; integer/X refusal; flag range check + bit isolation by Z.testbit extensionality) + BUILD correspondence over a value pool + search with an independent spec decoder",
+        text="C15_no_foreign (all pyval keyword values, every definition shipped), C15_int_refused, C15_x_length, "
+             "C15_flag_range, C15_flag_isolation; C15_clen_refuted is the witness of the recorded finding (C-type "
+             "values are not length-checked). 'Payload length = implied length and every field decodes to the supplied "
+             "value' for whole definitions is decided by correspondence + search (partial: no generic walk theorem).",
+        note=MSG_NOTE, ref="DESIGN.md §6 C15"),
     "C16": dict(
         technique="Coq: executable grammar wf_def evaluated by vm_compute over the whole generated tables (finite domain = the tables as found in the working tree) + nominal build/parse of every entry inside Coq; translator is the tie",
         text="C16_tables_wf / C16_entries_wf: every entry of the GET/SET/POLL tables obeys the documented grammar (types, "
@@ -132,6 +165,9 @@ CHECKS = {
 }
 
 PENDING = "check under construction in this session (model + theorems planned in DESIGN.md §6); not yet claimed"
+
+
+MSG_NOTE_DUMMY = None
 
 
 def main():
